@@ -681,9 +681,15 @@ class PVLParser(object):
         ``set`` objects are non-hashable, they cannot be members of a set,
         however, ``frozenset`` objects can.
         """
-        return frozenset(
-            self._parse_set_seq(self.grammar.set_delimiters, tokens)
-        )
+        elements = self._parse_set_seq(self.grammar.set_delimiters, tokens)
+        try:
+            return frozenset(elements)
+        except TypeError as err:
+            # A Sequence is a Python list, which can't be a set member.
+            tokens.throw(
+                ValueError,
+                f"A PVL Set has an element that cannot be hashed: {err}",
+            )
 
     def parse_sequence(self, tokens: abc.Generator) -> list:
         """Parses a PVL Sequence.
@@ -855,7 +861,14 @@ class ODLParser(PVLParser):
         can be represented as a Python ``set`` (unlike PVL Sets,
         which must be represented as a Python ``frozenset`` objects).
         """
-        return set(self._parse_set_seq(self.grammar.set_delimiters, tokens))
+        elements = self._parse_set_seq(self.grammar.set_delimiters, tokens)
+        try:
+            return set(elements)
+        except TypeError as err:
+            tokens.throw(
+                ValueError,
+                f"An ODL Set may only contain scalar values: {err}",
+            )
 
     def parse_units(self, value, tokens: abc.Generator) -> str:
         """Extends the parent function, since ODL only allows units
